@@ -33,13 +33,21 @@ def run(ctx, out):
     for f1, f2 in itertools.product(("commit", "cancel"), repeat=2):
         histories.append(([f"begin:{tok('a')}", f"begin:{tok('b')}", f"{f1}:{tok('a')}" + (":7" if f1 == "commit" else ""),
                            f"{f2}:{tok('b')}" + (":9" if f2 == "commit" else "")], f2, "ok", 2))
-    for calls, fin, outcome, mx in histories:
+    # earlier begins that FAILED must not count as open: aborted outright, completed without receipt number, receipt reported and then aborted
+    failed_begins = {"abort": [P.abort(0x6c)], "noreceipt": [P.status(result_code=0), P.completion()],
+                     "receipt_abort": [P.status(receipt_no=77, result_code=0), P.abort(0x6c)]}
+    for fb, reply in failed_begins.items():
+        for fin in ("commit", "cancel"):
+            histories.append(([f"begin:{tok('a')}", f"begin:{tok('b')}", f"{fin}:{tok('b')}" + (":7" if fin == "commit" else "")], fin, "ok", 2, reply))
+    for h in histories:
+        calls, fin, outcome, mx = h[:4]
+        first_begin = h[4] if len(h) > 4 else None
         for pend in pendings:
             for rev in ("ok", "abort"):
                 if pend in (None, 0xffff) and rev == "abort":
                     continue
                 for eod in (eods if outcome == "ok" and pend in (None, 17) and rev == "ok" else eods[:3]):
-                    q = {"0622": [ok_begin(11), ok_begin(12)],
+                    q = {"0622": ([first_begin, ok_begin(12)] if first_begin is not None else [ok_begin(11), ok_begin(12)]),
                          "0623q": [[P.pr_abort(0xb8, 0xffff)], [P.pr_abort(0xb8, pend)]],         # 1st: start-up, 2nd: when going idle
                          "0650": [[P.completion()], eod],
                          "0625": [], "0623": []}
